@@ -17,7 +17,8 @@ leaves unproved).
              stored in caller data, type words).
   * `Obj`    a heap object: owner tag + body (`array`, `gomap`, `bigfloat`,
              `markset`).  Strings are immutable and live in words.
-  * `Owner`  ghost state: `lib` (library-owned, frozen: nobody may write),
+  * `Owner`  ghost state: `lib` (library-owned, frozen: nobody may write), `libset`
+             (the bucket map of the set inside a value: library-owned, frozen),
              `caller` (plain Go data the caller holds and may mutate), `helper`
              (the bucket map of a mutable helper set — ValueSet, PathSet),
              `bucket m` (a bucket backing array of the set whose map is `m`),
@@ -53,6 +54,7 @@ end Key
 
 inductive Owner where
   | lib
+  | libset
   | caller
   | helper
   | bucket (m : Addr)
@@ -111,6 +113,13 @@ def setBody (m : Mem) (a : Addr) (b : Body) : Mem :=
 def freeze (m : Mem) (a : Addr) : Mem :=
   match m[a]? with
   | some o => m.set a { o with owner := .lib }
+  | none => m
+
+/-- ghost step: a constructor has finished building the set whose bucket map is `a`;
+from here on the map (and with it its bucket arrays) is library-owned -/
+def publish (m : Mem) (a : Addr) : Mem :=
+  match m[a]? with
+  | some o => m.set a { o with owner := .libset }
   | none => m
 
 def cellsOf (m : Mem) (a : Addr) : Option (List Word) :=
@@ -257,11 +266,13 @@ def fp : Nat → Mem → Word → List Tok
 
 /-! ### frozen: everything the fingerprint reads is library-owned -/
 
-/-- a library-owned object: owner `lib`, or a bucket array of a library-owned set -/
+/-- a library-owned object: owner `lib` / `libset`, or a bucket array of a
+library-owned set -/
 def frozenObj (m : Mem) (a : Addr) : Bool :=
   match ownerOf m a with
   | some .lib => true
-  | some (.bucket b) => ownerOf m b == some .lib
+  | some .libset => true
+  | some (.bucket b) => ownerOf m b == some .libset
   | _ => false
 
 /-- a bucket entry of the set whose map is `a`: a slice over an array tagged
@@ -289,7 +300,7 @@ def frozen : Nat → Mem → Word → Bool
       | some ⟨.lib, .gomap kvs⟩ => kvs.all fun kv => frozen f m kv.2
       | _ => false
     | .set a => match m[a]? with
-      | some ⟨.lib, .gomap kvs⟩ => kvs.all fun kv => bucketOK (frozen f m) m a kv.2
+      | some ⟨.libset, .gomap kvs⟩ => kvs.all fun kv => bucketOK (frozen f m) m a kv.2
       | _ => false
     | .marks _ => false
     | .marked ms r => (match m[ms]? with
